@@ -42,7 +42,7 @@ func AllStyles() StyleOpts {
 var (
 	MetricNames = []string{"foo", "bar", "baz", "up", "http_requests_total", "node_cpu_seconds_total", "job:foo:rate5m", "errors_total"}
 	LabelNames  = []string{"job", "instance", "a", "b", "c", "severity", "team", "env"}
-	LabelValues = []string{"1", "2", "x", "prod", "critical", "page", "node", "api"}
+	LabelValues = []string{"1", "2", "x", "prod", "critical", "page", "node", "api", "équipe"}
 	AlertNames  = []string{"Foo", "BarDown", "HighErrors", "Foo_Bar", "X1", "InstanceDown", "Alert One"}
 	RecordNames = []string{"job:foo:rate5m", "foo:sum", "bar:count", "instance:up:sum", "colo:job:errors", "baz_agg"}
 	Durations   = []string{"5m", "1m", "10m", "1h", "30s", "0s", "2h30m", "1d"}
@@ -79,6 +79,8 @@ var AnnotationValues = []string{
 	`it's "quoted" text`,
 	`a: b`,
 	`multi word annotation with many words so that it can be folded across lines nicely`,
+	`température élevée sur {{ $labels.instance }} — vérifiez`,
+	`日本語 の 説明 {{ $value }}`,
 }
 
 // Model -----------------------------------------------------------------------
